@@ -6,6 +6,7 @@
   spectator size — no bounds.  Obligations are listed in harness/props/c09.py.
 -/
 import NiftyVerif.Lemmas.HarmonicInstance
+import NiftyVerif.Lemmas.HarmonicVolume
 
 namespace NiftyVerif.C09
 open NiftyVerif.Harmonic Finset
@@ -262,4 +263,18 @@ theorem smoothing_sigma0_id [IsDomain K] (s : Scal K) (σ : K →+* K) (hs : Sca
 example (i : Idx) (hi : InBox gridC i) : smoothApply scalC gridC true (1 / 4) (1 / 2) false (fun _ => 1) xC i = xC i :=
   (smoothing_sigma0_id scalC (starRingEnd ℂ) scalC_ok gridC gridC_ok gridC_conj true (1 / 4) (1 / 2)
     (by simp [gridC, Grid.ncells]; norm_num) (by simp [map_ofNat]) (by simp [map_ofNat]) (fun _ => 1) xC xC_real).2 i hi
+/-- the code's volume logic (rg_space.py: distances of the harmonic partner are 1/(n·d), scalar_dvol is the product
+    of the distances) discharges the hypothesis `dvol_t·dvol_d·ncells = 1` of the mode theorems, for every RGSpace of
+    any dimension with positive axis lengths and non-zero distances -/
+theorem rg_dvol_product (dims : List (Nat × Rat)) (h : ∀ nd ∈ dims, 0 < nd.1 ∧ nd.2 ≠ 0) :
+    rgDvol true dims * rgDvol false dims * (rgCells dims : Rat) = 1 :=
+  rgDvol_product dims h
+
+/-- non-vacuity: a 4×2 grid with distances 1/2, 3/4 -/
+example : rgDvol true [(4, 1/2), (2, 3/4)] * rgDvol false [(4, 1/2), (2, 3/4)] * ((4 * (2 * 1) : Nat) : Rat) = 1 :=
+  rg_dvol_product [(4, 1/2), (2, 3/4)] (by
+    intro nd hnd
+    simp only [List.mem_cons, List.not_mem_nil, or_false] at hnd
+    rcases hnd with rfl | rfl <;> norm_num)
+
 end NiftyVerif.C09
